@@ -24,9 +24,15 @@ BASE_WIRING = {
 }
 
 def visitors(P):
+    """{method name: function} for the two implementors of the visitor trait; a method an implementor does not override is the
+    trait's default body (shared by both sides)"""
     impls = P.trait_impls(VIS)
     js = {f.name: f for f in impls if "operation_js_printer" in f.path}
     ts = {f.name: f for f in impls if "operation_type_printer" in f.path}
+    for f in P.fns.values():
+        if f.path.startswith(VIS + "::") and f.kind == "AssocFn" and not f.impl_trait and "::{closure" not in f.path:
+            js.setdefault(f.name, f)
+            ts.setdefault(f.name, f)
     return js, ts
 
 
@@ -175,7 +181,13 @@ def r14a(P, R):
         for fld in adt.fields():
             exp = BASE_WIRING.get(fld)
             if exp is None:
-                R.undecided("R14-a", "wiring:" + fld, "new option field `%s` has no entry in the wiring table" % fld, loc=base_fc.loc())
+                # a new option (feature addition) is correct when it is wired to a config key of its own
+                got = {g for g in w.get(fld, set()) if g[0] != "<assigned>"}
+                if got and not (got & set(BASE_WIRING.values())):
+                    R.holds("R14-a", "wiring:" + fld, "new option `%s` <- new config key(s) %s" % (fld, sorted(got)), loc=base_fc.loc())
+                else:
+                    R.undecided("R14-a", "wiring:" + fld, "new option field `%s` has no entry in the wiring table and is wired to %s"
+                                % (fld, sorted(got) or "no config key"), loc=base_fc.loc())
                 continue
             require_fields(P, (CFG + exp[0], exp[1]))
             got = {g for g in w.get(fld, set()) if g[0] != "<assigned>"}
@@ -254,10 +266,26 @@ def r14a(P, R):
              ("wiring", wiring))
 
 
+def _lit_alternatives(e):
+    """(condition, [literal per branch]) when `e` is `if c { "lit" } else { "lit" }` (references/temporaries peeled), else None"""
+    while e.get("k") in ("AddrOf", "DropTemps", "Use") and "e" in e:
+        e = e["e"]
+    if e.get("k") != "If" or "else" not in e:
+        return None
+    vals = [lit_value(e["then"]), lit_value(e["else"])]
+    return (e["cond"], vals) if all(isinstance(v, str) for v in vals) else None
+
+
 def const_site(em):
-    """the identifier written right after the literal `const ` -> (entry of the identifier write, entry of the `export ` write
-    preceding it)"""
+    """the identifier written right after the literal `const ` -> (entry of the identifier write, the `export ` decision before
+    it).  The decision is the emission entry of a separate `export ` write (its enclosing conditions decide), or ("cond", index,
+    condition) when one write chooses between the literals `export const ` and `const `."""
     for pos, (i, kind, lit, n) in enumerate(em):
+        if kind == "write" and lit is None and n["args"]:
+            alt = _lit_alternatives(n["args"][0])
+            if alt and all(v.endswith("const ") for v in alt[1]) and any(v.startswith("export ") for v in alt[1]) \
+                    and not all(v.startswith("export ") for v in alt[1]):
+                return (em[pos + 1] if pos + 1 < len(em) else None), ("cond", i, alt[0])
         if kind == "write" and lit == "const ":
             ident = em[pos + 1] if pos + 1 < len(em) else None
             exp = None
@@ -287,15 +315,16 @@ def _usable(f):
 
 
 class Carriers:
-    """The structs through which the shared driver hands values to the visitors (the context parameter types of the visitor
-    methods and, transitively, the same-crate structs their fields refer to), with the *expansion* of a carrier field: what every
-    constructor site of the struct (in the constructing function and, with same-crate helpers inlined, in the shared driver) puts
-    there.  Names of the carrier structs, of their fields and of the functions that fill them play no role."""
+    """The data types through which the shared driver hands values to the visitors: the context parameter types of the visitor
+    methods, the same-crate structs their fields refer to and — discovered from the constructor sites — any intermediate struct or
+    enum variant of the crate that the driver's side builds first and takes apart later (a plan, a tuple turned struct).  The
+    *expansion* of a carrier field is what every constructor site of the struct/variant (in the constructing function and, with
+    same-crate helpers inlined, in the shared driver) puts there.  Names of the carriers, of their fields and of the functions that
+    fill them play no role.  Carrier keys are ADT paths for structs and variant paths for enum variants with named fields."""
 
     def __init__(self, P, roots, drivers=()):
         from templates import inlined
         self.P = P
-        self.crate = PR.rstrip(":")
         self.adts = set()
         todo = [a for a in roots if a]
         while todo:
@@ -307,34 +336,143 @@ class Carriers:
                 b = _adt_of_type(P, ty)
                 if b and b.startswith(PR):
                     todo.append(b)
-        # constructor sites
+        # where the driver's side constructs things: functions reachable from the shared driver without entering a visitor
+        vis = {f.path for f in P.trait_impls(VIS)}
+        shared = P.reachable(list(drivers), stop=vis) if drivers else set()
+        built_in_shared = set()
+        for p in shared:
+            f = P.fns.get(p)
+            if f is not None and _usable(f) and p.startswith((PR, "<" + PR)):
+                for n in f.walk():
+                    if n.get("k") == "Struct" and "rest" not in n:
+                        built_in_shared.add(norm(n.get("variant") or n.get("adt")))
+        self.unresolved = set()
+        for _round in range(4):
+            self._collect_sites(drivers, inlined)
+            # intermediate carriers: a printer-crate struct/variant built on the driver's side whose field feeds a carrier field
+            new = set()
+            for atoms in self.sites.values():
+                for a in atoms:
+                    if a[0] == "field" and a[1] and a[1].startswith(PR) and a[1] not in self.adts and a[1] in built_in_shared:
+                        new.add(a[1])
+            if not new:
+                break
+            self.adts |= new
+
+    def _lit_key(self, n):
+        return norm(n.get("variant") or n.get("adt"))
+
+    def _collect_sites(self, drivers, inlined):
+        P = self.P
         direct = [f for f in P.fns.values() if f.path.startswith((PR, "<" + PR)) and _usable(f)
-                  and any(n.get("k") == "Struct" and "rest" not in n and norm(n.get("adt")) in self.adts for n in f.walk())]
+                  and any(n.get("k") == "Struct" and "rest" not in n and self._lit_key(n) in self.adts for n in f.walk())]
         roots_fn = {f.path: f for f in direct}
         for d in drivers:
             # a constructor inside a helper of the shared driver sees its parameters through the driver (virtual inlining)
             roots_fn.setdefault(d.path, d)
-        self.sites = {}   # (adt, field) -> set of atoms
+        self.sites = {}   # (carrier, field) -> set of atoms
         for f in roots_fn.values():
             fi = inlined(P, f)
             pv = None
             for n in fi.walk():
-                if n.get("k") == "Struct" and "rest" not in n and norm(n.get("adt")) in self.adts:
+                if n.get("k") == "Struct" and "rest" not in n and self._lit_key(n) in self.adts:
                     pv = pv or Prov(fi)
                     for fld in n["fields"]:
-                        self.sites.setdefault((norm(n["adt"]), fld["name"]), set()).update(pv.deep_atoms(fld["e"]))
-        self.unresolved = set()
+                        self.sites.setdefault((self._lit_key(n), fld["name"]), set()).update(self.trace(pv, fld["e"]))
+
+    def trace(self, pv, e, _frame=None):
+        """Field-sensitive provenance of an expression, as atoms (("field", adt, f) | ("call", path) | ("def", path) | ("param", name)):
+        like Prov.atoms, but (1) a projection of a carrier field, or a local bound by destructuring a carrier, contributes that field
+        only — not everything the carrier value was built from (its constructor sites tell the rest); (2) a virtually inlined callee
+        contributes what its *returned* expressions derive from, with its parameters bound to the arguments of *this* call (a helper
+        shared by two call sites does not mix them), not its whole body."""
+        out, seen, st = set(), set(), [e]
+        while st:
+            n = st.pop()
+            if isinstance(n, list):
+                st.extend(n)
+                continue
+            if not isinstance(n, dict):
+                continue
+            k = n.get("k")
+            if k == "Path":
+                if "local" in n:
+                    lid = n["local"]
+                    if lid in seen:
+                        continue
+                    seen.add(lid)
+                    fr = _frame
+                    while fr is not None and lid not in fr[0]:
+                        fr = fr[1]
+                    if fr is not None:
+                        out |= self.trace(pv, fr[0][lid], fr[1])   # parameter of an inlined callee: the argument of this call
+                        continue
+                    if lid in pv.params:
+                        out.add(("param", pv.params[lid]))
+                    for src, extra in pv.src.get(lid, []):
+                        out |= set(extra)
+                        if any(a[0] == "field" and a[1] in self.adts for a in extra):
+                            continue   # destructured from a carrier
+                        if src is not None:
+                            st.append(src)
+                elif "def" in n:
+                    out.add(("def", norm(n["def"])))
+                continue
+            if k == "Field" and n.get("adt"):
+                out.add(("field", norm(n["adt"]), n["field"]))
+                if norm(n["adt"]) not in self.adts:
+                    st.append(n.get("e"))
+                continue
+            if k in ("Call", "MethodCall"):
+                c = call_name(n)
+                if c:
+                    out.add(("call", c))
+                args = ([n["recv"]] if k == "MethodCall" else []) + n["args"]
+                if "inl" in n:
+                    body, params = n["inl"]["body"], n["inl"]["params"]
+                    simple = len(params) == len(args) and all(p.get("k") == "Binding" and "sub" not in p for p in params)
+                    rets = [x["e"] for x in subnodes(body) if x.get("k") == "InlRet" and "e" in x]
+                    if body.get("k") == "BlockExpr":
+                        if "tail" in body["b"]:
+                            rets.append(body["b"]["tail"])
+                    else:
+                        rets.append(body)
+                    if simple:
+                        frame = ({p["local"]: a for p, a in zip(params, args)}, _frame)
+                        for r in rets:
+                            out |= self.trace(pv, r, frame)
+                    else:
+                        st.extend(rets)   # destructuring parameters: Prov's (call-site-insensitive) bindings
+                    continue
+                st.extend(args)
+                if k == "Call" and isinstance(n.get("f"), dict) and n["f"].get("k") != "Path":
+                    st.append(n["f"])
+                continue
+            if k in ("Binding", "Wild", "TupleStruct", "PatExpr", "Or", "Ref", "Range", "Slice") or (k == "Struct" and "rest" in n):
+                continue   # patterns carry no value
+            st.extend(v for kk, v in n.items() if kk != "inl" and isinstance(v, (dict, list)))
+        return out
 
     def field_adt(self, adt, field):
+        """the workspace ADT the field's type names (struct fields and named fields of enum variants)"""
         a = self.P.adts.get(adt)
-        if a is None or a.kind != "Struct":
-            return None
-        return _adt_of_type(self.P, a.field_types().get(field))
+        if a is not None and a.kind == "Struct":
+            return _adt_of_type(self.P, a.field_types().get(field))
+        if a is None and "::" in adt:
+            parent, vname = adt.rsplit("::", 1)
+            e = self.P.adts.get(parent)
+            if e is not None:
+                for v in e.variants:
+                    if v["name"] == vname:
+                        for f in v["fields"]:
+                            if f["name"] == field:
+                                return _adt_of_type(self.P, f["ty"])
+        return None
 
     def expand(self, atoms, _seen=frozenset()):
         """leaf signature of a set of atoms: carrier fields replaced by what their constructors put there; fields that only step
         into another struct of the printer crate (`self.options`, `options.base_options`, `context.names`) dropped; calls of printer
-        functions dropped (their return summary is part of the deep atoms) -> {(adt, field)} | {("call", fn)}"""
+        functions dropped (an inlined helper is traced through its returned expressions) -> {(adt, field)} | {("call", fn)}"""
         sig = set()
         for a in atoms:
             if a[0] == "field" and a[1]:
@@ -354,7 +492,7 @@ class Carriers:
                     sig.add((adt, fld))
             elif a[0] in ("call", "def") and a[1] in self.P.fns:
                 if a[1].startswith((PR, "<")) or a[1].endswith("::name_pos"):
-                    continue   # printer helpers: their return summary is already among the deep atoms; trait impls (Display..)
+                    continue   # printer helpers (traced through their returns when inlined); trait impls (Display..)
                 sig.add(("call", a[1]))
         return sig
 
@@ -376,17 +514,17 @@ def _show(sig):
     return sorted("%s()" % short(s[1]) if s[0] == "call" else "%s.%s" % (s[0].split("::")[-1], s[1]) for s in sig)
 
 
-def guard_atoms(fn, idx, pv):
+def guard_atoms(fn, idx, pv, C):
     """atoms of the conditions under which nodes()[idx] runs (then-branches and else-branches alike; an else-branch is
     conditional on the same expression) + whether any enclosing condition exists"""
     out, n = set(), 0
     for c in enclosing_contexts(fn, idx):
         if c[0] in ("if-then", "if-else"):
             n += 1
-            out |= set(pv.deep_atoms(c[1]["cond"]))
+            out |= C.trace(pv, c[1]["cond"])
         elif c[0] == "arm" and c[1] is not None and c[1].get("src") == "Normal":
             n += 1
-            out |= set(pv.deep_atoms(c[1]["scrut"]))
+            out |= C.trace(pv, c[1]["scrut"])
     return out, n
 
 
@@ -428,7 +566,11 @@ def r14b(P, R):
             R.undecided("R14-b", key, "%s: no separate `export ` write precedes the %s constant; the export condition is not decided on "
                         "this shape" % (f.path, what), loc=f.loc())
             return None
-        ga, n = guard_atoms(f, exp[0], pv)
+        if exp[0] == "cond":
+            ga, n = guard_atoms(f, exp[1], pv, C)
+            ga, n = ga | C.trace(pv, exp[2]), n + 1
+        else:
+            ga, n = guard_atoms(f, exp[0], pv, C)
         raw = C.raw_fields(ga)
         sig = naming(C.expand(ga))
         opts = {s for s in sig if s[0] != "call" and s[0].startswith(PR)}
@@ -455,7 +597,7 @@ def r14b(P, R):
             R.undecided("R14-b", "op-const:" + side, "%s: no `const ` write followed by an identifier write was found; the name of the "
                         "operation constant is not decided on this shape" % f.path, loc=f.loc())
             continue
-        sig = naming(C.expand(pv.deep_atoms(ident[3]["args"][0])))
+        sig = naming(C.expand(C.trace(pv, ident[3]["args"][0])))
         sigs[side] = sig
         foreign = {s for s in sig if s[0] != "call" and s[0].startswith(PR) and s not in allowed_op}
         R.check("R14-b", "op-const-name:" + side, need_op <= sig and not foreign,
@@ -480,7 +622,7 @@ def r14b(P, R):
             R.undecided("R14-b", "frag-const:" + side, "%s: no `const ` write followed by an identifier write was found; the name of the "
                         "fragment constant is not decided on this shape" % f.path, loc=f.loc())
             continue
-        sig = naming(C.expand(pv.deep_atoms(ident[3]["args"][0])))
+        sig = naming(C.expand(C.trace(pv, ident[3]["args"][0])))
         fsigs[side] = sig
         extra = {s for s in sig if s not in need_fr and s != ("nitrogql_ast::base::Ident", "name")}
         R.check("R14-b", "frag-const-name:" + side, need_fr <= sig and not extra, "fragment constant = fragment name + fragment_variable_suffix",
@@ -500,7 +642,10 @@ def r14b(P, R):
         f, pv, em = site(side, methods[2])
         lits = [e[2] for e in em if e[2] is not None]
         names = [e for e in em if e[2] is None and e[3]["args"]]
-        ok_shape = lits[:1] == ["export { "] and any(l.startswith(" as default") for l in lits) and len(names) == 1
+        # the text around the name: literal writes, or the pieces of one formatted write (`export {{ {name} as default }}`)
+        from facts import str_lits_in
+        pieces = [l for l in lits if isinstance(l, str)] + [l for e in names for l in str_lits_in(e[3]["args"][0]) if isinstance(l, str)]
+        ok_shape = any(l.lstrip().startswith("export {") for l in pieces[:1]) and any(l.startswith(" as default") for l in pieces) and len(names) == 1
         if ok_shape:
             R.holds("R14-b", "default-shape:" + side, "`export { <name> as default }`", loc=f.loc())
         elif not em:
@@ -510,7 +655,7 @@ def r14b(P, R):
             R.undecided("R14-b", "default-shape:" + side, "%s: the emission %s is not the recognised `export { <name> as default }` sequence"
                         % (f.path, lits), loc=f.loc())
             continue
-        sig = naming(C.expand(pv.deep_atoms(names[0][3]["args"][0])))
+        sig = naming(C.expand(C.trace(pv, names[0][3]["args"][0])))
         same = side not in sigs or sig == sigs[side]
         R.check("R14-b", "default-name:" + side, need_op <= sig and same, "default export re-exports the operation constant",
                 "%s default-exports a name computed from %s; the operation constant of the same file is named from %s%s"
@@ -529,7 +674,7 @@ def r14b(P, R):
         for i, (c, _) in enumerate(driver.nodes()):
             if c.get("k") == "MethodCall" and c["method"] == methods[2]:
                 sites += 1
-                ga, n = guard_atoms(driver, i, pv)
+                ga, n = guard_atoms(driver, i, pv, C)
                 g = C.expand(ga)
                 R.check("R14-b", "default-eligibility", opt("default_export_for_operation") in g,
                         "default export only with the option on (and a single operation)", "default export eligibility depends on %s" % _show(naming(g)), loc=driver.loc())
